@@ -46,6 +46,7 @@ type Contract struct {
 	Pure       bool // may be called from spec expressions
 	Lemmas     []*LemmaUse
 	Asserts    []*Clause // Label = anchor
+	Witness    []*Clause // definitions of skolem functions used in ensures (assumed at return; the function symbol must be fresh)
 	Bounds     []string
 	Split      *Expr
 	SplitLo    int64
@@ -95,7 +96,7 @@ type SpecFile struct {
 var clauseKeywords = map[string]bool{
 	"func": true, "property": true, "returns": true, "requires": true, "ensures": true, "invariant": true,
 	"let": true, "modifies": true, "nopanic": true, "inline": true, "trusted": true, "pure": true, "lemma": true,
-	"assert": true, "split": true, "define": true, "family": true, "deflemma": true, "axiom": true, "end": true, "bound": true, "note": true,
+	"assert": true, "witness": true, "split": true, "define": true, "family": true, "deflemma": true, "axiom": true, "end": true, "bound": true, "note": true,
 }
 
 func ParseSpecFile(path string) (*SpecFile, error) {
@@ -393,6 +394,13 @@ func ParseSpecFile(path string) (*SpecFile, error) {
 					return nil, perr(fmt.Errorf("lemma use must be a call"))
 				}
 				cur.Lemmas = append(cur.Lemmas, &LemmaUse{Anchor: anchor, Name: e.Name, Args: e.Args, Guard: guard, Line: rc.line})
+			case "witness":
+				lab, rest := splitLabel(rc.text)
+				e, err := ParseExpr(rest)
+				if err != nil {
+					return nil, perr(err)
+				}
+				cur.Witness = append(cur.Witness, &Clause{Label: lab, Expr: e, Src: rest, Line: rc.line})
 			case "assert":
 				t := rc.text
 				anchor := "return"
